@@ -99,6 +99,16 @@ CLAIMS = {
         note="trusts the typing facts in kverif/typemodel.py; one known finding (self-referential collection names)",
         technique="static analysis: two-stage finite decision-table extraction, emit/import pairing by CFG dominance, template unification, set-iteration lint with positive control",
     ),
+    "C20": dict(
+        text="Decides the absence of strong chains from process-lifetime roots to user objects in a type-level heap graph built from "
+             "field annotations: roots are discovered (ClassVar / module-level mutable containers, singleton tables, lru_cache tables), "
+             "weak references / InitVars / class-valued fields carry no edge, scoped stacks are exempt by an enter/exit pairing rule; "
+             "plus that the instance graph and monitored containers refer to instances weakly and that node removal leaves no bookkeeping "
+             "behind (SG-COHERENCE / IDKEY shared with C14). Actual reclamation by the collector is not decided.",
+        ref="DESIGN.md §3 C20",
+        note="the heap graph is built from annotations, not observed stores; four known findings (expression registry, expression graph, two caches)",
+        technique="static analysis: reachability in a type-level heap graph with automatically discovered roots; effect analysis of the registry",
+    ),
 }
 
 _PENDING = "checker not built yet in this round (planned, see DESIGN.md)"
